@@ -358,9 +358,15 @@ func genC09(rt *rapid.T) C09Case {
 		sys := genSyscallRec(rt, tk)
 		var others []kenc.Rec
 		kinds := []string{"cwd", "execve", "sockaddr", "proctitle", "avc", "apparmor", "bprm", "mmap", "objpid", "fdpair", "kmod", "config", "feature"}
-		for _, k := range kinds {
+		for i, k := range kinds {
 			if rapid.IntRange(0, 2).Draw(rt, "has-"+k) == 0 {
-				others = append(others, genOtherRec(rt, tk, k, rapid.IntRange(0, 2).Draw(rt, "collide") == 0))
+				r := genOtherRec(rt, tk, k, rapid.IntRange(0, 2).Draw(rt, "collide") == 0)
+				if i >= 4 && rapid.IntRange(0, 3).Draw(rt, "syscallkey") == 0 {
+					// a field named like one of the SYSCALL record's own (only the SYSCALL record's item count
+					// may be dropped without a word)
+					r.Fields = append(r.Fields, kenc.P(rapid.SampledFrom([]string{"items", "exit", "a0", "items", "a3", "ppid", "tty"}).Draw(rt, "syscallkeyname"), tk.num()))
+				}
+				others = append(others, r)
 			}
 		}
 		npaths := rapid.IntRange(0, 4).Draw(rt, "npaths")
